@@ -902,14 +902,17 @@ def report(ctx, ck):
 
 
 def main(ctx):
-    ok, errs = ctx.lake_build(['GojaModel.C08.Props', 'GojaModel.C08.CompileProps', 'GojaModel.C08.CompileSProps', 'model_c08'])
+    ok, errs = ctx.lake_build(['GojaModel.C08.Props', 'GojaModel.C08.CompileProps', 'GojaModel.C08.CompileSProps',
+                               'GojaModel.C08.S2.Props', 'model_c08'])
     ctx.audit('GojaModel.C08.Props', expect_min=8)
     ctx.audit('GojaModel.C08.CompileProps', expect_min=6)
     ctx.audit('GojaModel.C08.CompileSProps', expect_min=6)
+    ctx.audit('GojaModel.C08.S2.Props', expect_min=8)      # stage 2: stage 1 + for-of (copies in namespace S2)
     if ctx.tier == 'thorough':
         ctx.leanchecker('GojaModel.C08.Props')
         ctx.leanchecker('GojaModel.C08.CompileProps')
         ctx.leanchecker('GojaModel.C08.CompileSProps')
+        ctx.leanchecker('GojaModel.C08.S2.Props')
     h = ctx.go_build()
     model = ctx.model_exe() if os.path.exists(ctx.model_exe()) and ok else None
     if not ok and os.path.exists(ctx.model_exe()):
